@@ -29,8 +29,8 @@ def alphabet(world, h):
 def plan(tier):
     W = worlds.curated()
     if tier == "quick":
-        names = ["dynamic", "dovar", "default", "csum-deep", "csum-two-b", "csum-fan", "diamond", "ifcreate", "always"]
-        return [(W[n], alphabet, 3) for n in names]
+        names = ["dynamic", "dovar", "default", "csum-deep", "csum-two-b", "csum-toggle", "csum-fan", "fan3", "diamond", "ifcreate", "always"]
+        return [(W[n], alphabet, 3, 2) for n in names]
     p = [(W[n], alphabet, 5 if n in ("dynamic", "ifcreate", "csum-mid", "chain", "csum-two", "csum-two-b") else 4) for n in W]
     G = worlds.generated()
     p += [(G[k], alphabet, 3) for k in sorted(G)]
